@@ -171,7 +171,12 @@ class Ctx:
     def fail(self, what, **data):
         if len(self.failures) < 50:
             d = {"what": what}
-            d.update(data)
+            for k, v in data.items():
+                if isinstance(v, int) and not isinstance(v, bool) and v.bit_length() > 4000:
+                    v = "<integer of %d bits, see the operation line>" % v.bit_length()
+                elif isinstance(v, str) and len(v) > 20000:
+                    v = v[:20000] + "...<truncated>"
+                d[k] = v
             self.failures.append(d)
 
     def finding(self, key, text):
